@@ -14,6 +14,8 @@
 (*   del_ack      accepted iff the key was present, else "does not exist"  *)
 (*                (C04, C11); the key is absent                            *)
 (*   get          the current value or nothing (C02, C03)                  *)
+(*   cold_put     ("hot key" rounds) a never-read key that fits only by    *)
+(*                evicting a continuously read one is refused (C06, C14)   *)
 (* Every recorded call is one step; the judges return verdict records in   *)
 (* the same form as CacheDJudge.                                           *)
 (***************************************************************************)
@@ -71,6 +73,16 @@ KeyHist(c, r) ==
               ELSE IF c = Absent THEN <<HV("C02", "a read returned a value for a key that is absent (deleted or never written)")>>
               ELSE IF r.got = Absent THEN <<HV("C03", "an accepted key without time to live became unreadable without memory pressure")>>
               ELSE <<HV("C02", "a read returned a value other than the last one written to the key")>>>>
+    \* "hot key" rounds: the only resident fills the cache and is read without pause; r.k was never read and fits only by evicting it
+    [] r.op = "cold_put" ->
+         \* (judged when the newcomer's estimate was 0 before and after the put and the resident's was at least 4 before it: the
+         \*  resident is incremented by every batch, so between two halvings it cannot fall to 0)
+         <<c, (IF r.st = StAccepted /\ r.e_cold = 0 /\ r.e_cold2 = 0 /\ r.e_hot >= 4
+               THEN <<HV("C14", "a key that was never read was admitted in place of a key that is read continuously: admission used an estimate below the accesses recorded for it"),
+                      HV("C06", "a key colder than the only candidate victim was admitted")>>
+               ELSE <<>>)
+              \o (IF r.got = Absent /\ r.st \notin {StAccepted, -2}
+                  THEN <<HV("C06", "the resident key was evicted although the incoming key was refused")>> ELSE <<>>)>>
     [] OTHER -> <<c, <<>>>>
 
 Init == l = 1 /\ cur = [k \in {} |-> Absent]
